@@ -13,6 +13,12 @@ CHECKS = {
         note='trusts the .lark files as the documented grammar, Lark Earley as recogniser, and the precedence table transcribed in hplverif/mast.py',
         ref='DESIGN.md section 4, C01',
     ),
+    'C02': dict(
+        technique='model-based property testing: generated property skeletons with alias/reference placements, an independent scoping function as reference model, verdict differential on three construction routes (parser, API constructors, but()); small-scope exhaustive enumeration of simple-event properties',
+        level='bounded exploration with a reference model of HPL scoping: thousands of random properties per run (all scope/pattern kinds, disjunctions, references at top level / quantifier body / quantifier domain / nested), quantifier-hygiene faults, duplicate channels, and the 77 064-point space of simple-event properties with one reference per event (sliced in the quick tier, exhaustive in the thorough tier)',
+        note='alias namespace {A,B,C,Z}; the same alias on two alternatives of one disjunction is a documented don\'t-care; own alias captured by a quantifier is the listed known finding F16',
+        ref='DESIGN.md section 4, C02',
+    ),
     'C06': dict(
         technique='property-based round trip: parse generated text, str(), parse again with the entry point of that level; equality, hash and second-print oracle; run-wide injectivity map',
         level='bounded exploration: thousands of parser-produced ASTs per run over all node kinds, with time bounds from the whole double range in both units; every AST must print to text that parses to an equal, hash-equal AST that prints identically, and unequal ASTs must never share a printed form',
